@@ -70,3 +70,11 @@ VARIANTS += [
              dict(file=RDB, old="    except Exception:\n        session.rollback()\n        raise\n    finally:\n        session.close()\n", new="    except Exception:\n        session.rollback()\n        raise\n    else:\n        session.commit()\n    finally:\n        session.close()\n"),
          ], expect="R05.4"),
 ]
+
+VARIANTS += [
+    dict(id="c05-helper-commits-early", prop="C05", file=RDB, expect="R05.4",
+         old="        session.flush()\n\n        if template_trial is not None:", new="        session.flush()\n        session.commit()\n\n        if template_trial is not None:"),
+    dict(id="c05-release-owner-only", prop="C05", file=JF, expect="R05.5", count=2,
+         old="        lock_rename_file = self._lock_file + str(uuid.uuid4()) + RENAME_FILE_SUFFIX\n        try:",
+         new="        if not os.path.exists(self._lock_file):\n            raise RuntimeError(\"Error: did not possess lock\")\n        lock_rename_file = self._lock_file + str(uuid.uuid4()) + RENAME_FILE_SUFFIX\n        try:"),
+]
